@@ -287,7 +287,14 @@ func (d *doc) culprit(first int, toks []obsTok, why string) string {
 	}
 	names := map[string]bool{}
 	classes := map[string][]int{}
+	lo, hi := 1, len(d.c.Atoms) // only the atoms of the expected token that was not delivered
+	if first < len(d.c.Exp) {
+		lo, hi = d.c.Exp[first].Lo, d.c.Exp[first].Hi
+	}
 	for i, a := range d.c.Atoms {
+		if i+1 < lo || i+1 > hi {
+			continue
+		}
 		if _, ok := neutral(a); ok {
 			classes[atomClass(a)] = append(classes[atomClass(a)], i)
 		}
